@@ -743,6 +743,22 @@ def gen_big_split_case(rng, cid, n, seg):
     return lines
 
 
+def gen_big_tail_case(rng, cid, n, back, hdr_cut=None):
+    """a large frame between two small ones with a read boundary `back` bytes before its end (a handler that thinks the frame
+    is complete too early truncates it), or `hdr_cut` bytes into its header"""
+    op = rng.choice(["Text", "Binary"])
+    items = [rand_item(rng, [3]), "f:%s:1:0:1:%s:%s" % (op, rkey(rng).hex(), pl_for(rng, op, n)), rand_item(rng, [4])]
+    L = stream_len(items)
+    first = len(item_bytes(items[0]))
+    big = len(item_bytes(items[1]))
+    lines = ["case %s" % cid, "hnew", "stream " + " ".join(items)]
+    cut = first + (hdr_cut if hdr_cut is not None else big - back)
+    lines.append("feed %d" % cut)
+    lines.append("feed %d" % (L - cut))
+    lines.append("end")
+    return lines
+
+
 # ----------------------------------------------------------------------------- run
 
 SMALL_BOUNDARY = [0, 1, 2, 3, 4, 5, 124, 125, 126, 127, 128, 129, 130, 254, 255, 256, 257, 299, 300]
@@ -829,6 +845,11 @@ def run(ctx):
     for n in ((65535, 65536, 70000) if not thorough else (126, 127, 255, 256, 65534, 65535, 65536, 65537, 70000)):
         for seg in ((1460,) if not thorough else (536, 1460, 16384, 65536)):
             hcases.append(gen_big_split_case(rng, "S%d-%d" % (n, seg), n, seg))
+    for n in ((126, 65535, 65536, 70000) if not thorough else (125, 126, 127, 300, 65535, 65536, 65537, 70000)):
+        for back in (1, 2, 3, 4):
+            hcases.append(gen_big_tail_case(rng, "T%d-%d" % (n, back), n, back))
+        for hc in (1, 2, 3, 7, 8, 9, 10, 13):
+            hcases.append(gen_big_tail_case(rng, "H%d-%d" % (n, hc), n, 0, hdr_cut=hc))
     for i in range(ctx.scale(40, 1500)):
         chunks = rng.choice([[1, 2, 3], [1, 5, 17, 64], [50, 200], [100000]])
         hcases.append(gen_random_cut_case(rng, "bad%d" % i, rng.randint(1, 8), tiny + [20, 126],
